@@ -6,6 +6,7 @@ import (
 	"crypto/sha256"
 	"fmt"
 	"sort"
+	"strings"
 
 	"cosmossdk.io/math"
 	sdk "github.com/cosmos/cosmos-sdk/types"
@@ -101,18 +102,41 @@ type machineryError struct{ msg string }
 
 func (m machineryError) Error() string { return m.msg }
 
+// abstractDenom maps a bank denom to the abstract ledger's denom ("ibc" = any voucher).
+func abstractDenom(d string) (string, bool) {
+	switch d {
+	case "uusdc", "ustake", "uswap":
+		return d, true
+	}
+	if strings.HasPrefix(d, "ibc/") {
+		return "ibc", true
+	}
+	return "", false
+}
+
 func (w *World) project(ctx sdk.Context) St {
 	st := St{Bal: map[string]map[string]int64{}, Supply: map[string]int64{},
 		PProto: []string{}, PCC: [][]string{}, PAct: []string{}, Amt: []AmtEntry{}, Cnt: []CntEntry{}}
 	for _, a := range w.tracked {
 		st.Bal[a] = map[string]int64{}
 		for _, d := range trackedDenoms {
-			st.Bal[a][d] = toInt(w.app.BankKeeper.GetBalance(ctx, w.acct[a], d).Amount, "balance "+a)
+			st.Bal[a][d] = 0
+		}
+		for _, c := range w.app.BankKeeper.GetAllBalances(ctx, w.acct[a]) {
+			if d, ok := abstractDenom(c.Denom); ok {
+				st.Bal[a][d] += toInt(c.Amount, "balance "+a)
+			}
 		}
 	}
 	for _, d := range trackedDenoms {
-		st.Supply[d] = toInt(w.app.BankKeeper.GetSupply(ctx, d).Amount, "supply "+d)
+		st.Supply[d] = 0
 	}
+	w.app.BankKeeper.IterateTotalSupply(ctx, func(c sdk.Coin) bool {
+		if d, ok := abstractDenom(c.Denom); ok {
+			st.Supply[d] += toInt(c.Amount, "supply "+d)
+		}
+		return false
+	})
 
 	g := w.app.OrbiterKeeper.ExportGenesis(ctx)
 	for _, p := range g.ForwarderGenesis.PausedProtocolIds {
@@ -174,10 +198,6 @@ func (w *World) orbAll(ctx sdk.Context) []DenomAmt {
 // and outside the orbiter account (which is logged in full by orbAll), so that "no other
 // account changed" is observable.
 func (w *World) othersDigest(ctx sdk.Context) string {
-	isTrackedDenom := map[string]bool{}
-	for _, d := range trackedDenoms {
-		isTrackedDenom[d] = true
-	}
 	isTracked := map[string]bool{}
 	for _, a := range w.tracked {
 		isTracked[w.acct[a].String()] = true
@@ -189,7 +209,7 @@ func (w *World) othersDigest(ctx sdk.Context) string {
 		if s == orb {
 			return false
 		}
-		if isTracked[s] && isTrackedDenom[c.Denom] {
+		if _, ok := abstractDenom(c.Denom); ok && isTracked[s] {
 			return false
 		}
 		lines = append(lines, s+"|"+c.String())
